@@ -44,7 +44,9 @@ Definition exp_w (p : wpc) : N :=
 Definition settle (c : cfg) (j : jst) : jst :=
   let (s, hs) := jstate j in
   match wp s with
-  | WComp _ polled =>
+  | WComp (Some _) polled =>
+    (* only after the `compile` event (which takes the snapshot and sets jwant for THIS
+       compilation); between `set_ic` and `compile` jwant still belongs to the previous one *)
     if N.eqb (jwant j) 0
     then (if rt s then
             match step c (s, hs) (LW APoll) with
